@@ -799,7 +799,7 @@ func (x *Exec) noPanicOrPre() bool {
 		return true
 	}
 	_, ok := x.TopC.Flags["check_pre"]
-	return ok
+	return ok // (the default run-time-check kinds do not include callee preconditions)
 }
 
 func contractParamNames(c *Contract, sig *types.Signature, fn *ssa.Function) []string {
